@@ -293,6 +293,15 @@ fn parse_decision_table(scope: &Scope, decision_table: &DecisionTable) -> Result
   // parse all rules
   let mut parsed_rules = vec![];
   for rule in &decision_table.rules {
+    // the entries of a rule are paired with the clauses of the table by position
+    if rule.input_entries.len() != input_expressions_and_values.len() || rule.output_entries.len() != output_values_nodes.len() {
+      return Err(crate::errors::err_invalid_number_of_rule_entries(
+        rule.input_entries.len(),
+        rule.output_entries.len(),
+        input_expressions_and_values.len(),
+        output_values_nodes.len(),
+      ));
+    }
     // parse input clause
     let mut input_entries_evaluators = vec![];
     for (i, (input_expression, input_values)) in input_expressions_and_values.iter().enumerate() {
